@@ -37,6 +37,7 @@ OBJECT_STARTS = {
     "p1,p2->X": [st("p1", "X"), st("p2", "X")],
     "X-unreferenced": [st(None, "X")],
     "p1->missing": [tag("p1", "X")],
+    "p1,p2->missing": [tag("p1", "X"), tag("p2", "X")],
 }
 
 OBJECT_MENU = [
